@@ -100,6 +100,8 @@ class Prog:
             for m in ty["m"]:
                 named(m["t"])
                 d |= self.byval(m["t"])
+            for b in ty.get("b", []):
+                d |= self.byval(b)
         elif k == "typedef":
             named(ty["t"])
             if self.types[ty["t"]]["k"] == "array":
@@ -137,12 +139,27 @@ class Prog:
         ty = self.types[i]
         k = ty["k"]
         if k in ("struct", "union"):
-            lines = ["%s %s {" % (k, self.tname(i).split()[-1])]
+            head = "%s %s" % (k, self.tname(i).split()[-1])
+            if ty.get("b"):
+                head += " : " + ", ".join("public " + self.tname(b) for b in ty["b"])
+            lines = [head + " {"]
+            cur = "public"
             for m in ty["m"]:
+                acc = m.get("acc") or "public"
+                if self.lang == "cxx" and acc != cur:
+                    lines.append(" %s:" % acc)
+                    cur = acc
                 d = self.decl(m["t"], "m%d" % m["n"])
                 if m["bw"]:
                     d += " : %d" % m["bw"]
                 lines.append("  " + d + ";")
+            if self.lang == "cxx" and (ty.get("vf") or ty.get("mf")):
+                if cur != "public":
+                    lines.append(" public:")
+                for v in ty.get("vf", []):
+                    lines.append("  virtual int vf%d(int a);" % v)      # defined out of line (key function: vtable and full debug info are emitted)
+                for f in ty.get("mf", []):
+                    lines.append("  int mf%d(int a) { return a + %d; }" % (f, f))   # inline, used by verif_use_methods, hidden (-fvisibility-inlines-hidden)
             lines.append("};")
             return "\n".join(lines)
         if k == "enum":
@@ -171,13 +188,32 @@ class Prog:
         body = body_variants[style["body"] % len(body_variants)]
         if f["r"] != 0:
             body += "  return *(%s)0;\n" % self.decl(f["r"], "*")
-        return "%s\n{\n%s}" % (self.fn_proto(f, style["param_prefix"]), body)
+        ext = 'extern "C" ' if self.lang == "cxx" else ""
+        return "%s%s\n{\n%s}" % (ext, self.fn_proto(f, style["param_prefix"]), body)
 
     def var_def(self, v):
         d = self.decl(v["t"], "var%d" % v["id"])
         if self.lang == "cxx":
-            return "extern " + d + ";\n" + d + " = {};"
+            # const objects have internal linkage in C++ unless declared extern; classes with virtuals need a constructed object
+            return 'extern "C" { extern ' + d + "; }\n" + d + self._cxx_init(v["t"]) + ";"
         return d + ";"
+
+    def _cxx_init(self, t):
+        return "" if self._has_const(t) is False else " = {}"
+
+    def _has_const(self, t):
+        """does the object type t (or an element / member reached by value) carry const, so that C++ demands an initializer?"""
+        if t == 0:
+            return False
+        ty = self.types[t]
+        k = ty["k"]
+        if k == "const":
+            return True
+        if k in ("typedef", "array"):
+            return self._has_const(ty["t"])
+        if k in ("struct", "union"):
+            return any(self._has_const(m["t"]) for m in ty["m"]) or any(self._has_const(b) for b in ty.get("b", []))
+        return False
 
 
 def render(types, fns, vars_, lang="c", style=None):
@@ -192,7 +228,7 @@ def render(types, fns, vars_, lang="c", style=None):
     for u in range(st["unused"]):
         hdr.append("struct Unused%d { int a; char b[%d]; };" % (u, u + 1))
     for f in fns:
-        hdr.append(P.fn_proto(f, "q") + ";")
+        hdr.append(('extern "C" ' if lang == "cxx" else "") + P.fn_proto(f, "q") + ";")
     hdr.append("#endif")
     files = {"types.h": "\n".join(hdr) + "\n"}
     items = [("f", f) for f in fns] + [("v", v) for v in vars_]
@@ -206,10 +242,21 @@ def render(types, fns, vars_, lang="c", style=None):
         for s in range(st["statics"]):
             lines.append("static int helper_%d_%d(int a) { return a + %d; }" % (k, s, s))
             lines.append("static int hidden_state_%d_%d = %d;" % (k, s, s))
+        if k == 0 and lang == "cxx":
+            uses = []
+            for i in range(1, len(P.types)):
+                ty = P.types[i]
+                if ty["k"] == "struct":
+                    for v in ty.get("vf", []):
+                        lines.append("int %s::vf%d(int a) { return a + %d; }" % (P.tname(i), v, v))
+                    for f in ty.get("mf", []):
+                        uses.append("((%s*) 0)->mf%d(1)" % (P.tname(i), f))
+            # the inline member functions are instantiated (and described in the debug info) because this function uses them
+            lines.append('extern "C" int verif_use_methods(void) { return %s; }' % (" + ".join(uses) or "0"))
         for kind, it in tu:
             lines.append(P.fn_def(it, st) if kind == "f" else P.var_def(it))
         if st["statics"]:
-            lines.append("int verif_use_%d(void) { return %s; }" % (k, " + ".join("helper_%d_%d(hidden_state_%d_%d)" % (k, s, k, s) for s in range(st["statics"]))))
+            lines.append("static int __attribute__((used)) verif_use_%d(void) { return %s; }" % (k, " + ".join("helper_%d_%d(hidden_state_%d_%d)" % (k, s, k, s) for s in range(st["statics"]))))
         files["tu%d.%s" % (k, ext)] = "\n".join(lines) + "\n"
     return files
 
